@@ -1,6 +1,7 @@
 package postprocessor
 
 import (
+	"fmt"
 	"io"
 	"net/http"
 
@@ -50,7 +51,11 @@ func (p *VarXpathPostprocessor) getValuesFromDOM(doc *html.Node, xpathQuery stri
 		return nil, err
 	}
 
-	iter := expr.Evaluate(htmlquery.CreateXPathNavigator(doc)).(*xpath.NodeIterator)
+	iter, ok := expr.Evaluate(htmlquery.CreateXPathNavigator(doc)).(*xpath.NodeIterator)
+	if !ok {
+		// count(...), string(...), boolean(...): a valid expression that does not select nodes
+		return nil, fmt.Errorf("xpath %q must evaluate to a node-set", xpathQuery)
+	}
 
 	var values []string
 	for iter.MoveNext() {
